@@ -111,6 +111,7 @@ from paramiko.ecdsakey import ECDSAKey
 from paramiko.server import ServerInterface
 from paramiko.sftp_client import SFTPClient
 from paramiko.ssh_exception import (
+    AuthenticationException,
     BadAuthenticationType,
     ChannelException,
     IncompatiblePeer,
@@ -3418,6 +3419,15 @@ class ServiceRequestingTransport(Transport):
             # AuthHandler.wait_for_response, re: 1/10 of a second. Could
             # presumably be smaller, but seems unlikely this period is going to
             # be "too long" for any code doing ssh networking...
+            if not self.active:
+                # the session ended while we were waiting: report it the way
+                # AuthHandler.wait_for_response does, instead of waiting forever
+                e = self.get_exception()
+                if e is None or isinstance(e, EOFError):
+                    e = AuthenticationException(
+                        "Authentication failed: transport shut down or saw EOF"
+                    )
+                raise e
             time.sleep(0.1)
         self.auth_handler = self.get_auth_handler()
 
